@@ -14,6 +14,7 @@ From Yv Require Import Common.Base C13.Model.
 Inductive kop :=
   | KFork (w : nat) (st : N)
   | KExit (i : nat)                 (* child i runs to its exit *)
+  | KSig (s : sig) (i : nat)        (* kill(child i, SIGSTOP / SIGCONT) *)
   | KWait (t : target)
   | KBlock | KUnblock               (* SIGCHLD into / out of the signal mask *)
   | KCatch (b : bool)               (* sigaction(SIGCHLD, Catch / Default) *)
@@ -29,6 +30,9 @@ Record ledger := mkLedger {
   born : list N;                    (* exit status each child will have, by index *)
   exited : list nat;                (* children that have exited *)
   reported : list nat;              (* children whose exit wait has reported *)
+  halted : list nat;                (* children that are stopped at the moment *)
+  fresh : list nat;                 (* live children with a stop / continuation that wait
+                                       has not reported yet *)
   l_catching : bool;
   l_blocked : bool;
   owed_pending : bool;              (* an exit happened while SIGCHLD was blocked and
@@ -36,47 +40,69 @@ Record ledger := mkLedger {
   owed_caught : nat }.              (* exits delivered to the handler and not yet taken
                                        (a lower bound: blocked exits collapse into one) *)
 
-Definition ledger0 : ledger := mkLedger [] [] [] false false false 0.
+Definition ledger0 : ledger := mkLedger [] [] [] [] [] false false false 0.
 
 Definition mem (i : nat) (l : list nat) : bool := existsb (Nat.eqb i) l.
+Definition drop (i : nat) (l : list nat) : list nat := filter (fun j => negb (j =? i)) l.
+Definition add (i : nat) (l : list nat) : list nat := if mem i l then l else i :: l.
+
+(* a change of state of a child raises SIGCHLD in the parent *)
+Definition owe (g : ledger) (ex rp ha fr : list nat) : ledger :=
+  if l_blocked g then
+    mkLedger (born g) ex rp ha fr (l_catching g) true true (owed_caught g)
+  else if l_catching g then
+    mkLedger (born g) ex rp ha fr true false (owed_pending g) (S (owed_caught g))
+  else mkLedger (born g) ex rp ha fr false false (owed_pending g) (owed_caught g).
 
 (* the pending flag is visible after every operation *)
 Definition ledger_step (g : ledger) (o : kop) (b : kobs) (pending_seen : bool)
   : option N * ledger :=
   let upd_sig g' :=
-    (* clause 5: SIGCHLD is pending iff an exit is owed under a blocking mask *)
+    (* clause 5: SIGCHLD is pending iff a change is owed under a blocking mask *)
     if Bool.eqb pending_seen (owed_pending g') then (None, g') else (Some 5%N, g') in
+  let same ex rp ha fr :=
+    mkLedger (born g) ex rp ha fr (l_catching g) (l_blocked g) (owed_pending g) (owed_caught g) in
+  let alive i := (i <? length (born g)) && negb (mem i (exited g)) in
+  let unreported i := mem i (exited g) && negb (mem i (reported g)) in
+  let all := seq 0 (length (born g)) in
   match o, b with
   | KFork _ st, BPid i =>
       if i =? length (born g)
-      then upd_sig (mkLedger (born g ++ [st]) (exited g) (reported g) (l_catching g) (l_blocked g)
-                             (owed_pending g) (owed_caught g))
+      then upd_sig (mkLedger (born g ++ [st]) (exited g) (reported g) (halted g) (fresh g)
+                             (l_catching g) (l_blocked g) (owed_pending g) (owed_caught g))
       else (Some 0%N, g)                      (* identity: children are numbered in order *)
   | KExit i, BUnit =>
-      let g1 := mkLedger (born g) (i :: exited g) (reported g) (l_catching g) (l_blocked g)
-                         (owed_pending g) (owed_caught g) in
-      if l_blocked g then
-        upd_sig (mkLedger (born g1) (exited g1) (reported g1) (l_catching g) true true (owed_caught g))
-      else if l_catching g then
-        upd_sig (mkLedger (born g1) (exited g1) (reported g1) true false (owed_pending g)
-                          (S (owed_caught g)))
-      else upd_sig g1
+      upd_sig (owe g (i :: exited g) (reported g) (halted g) (drop i (fresh g)))
+  | KSig SStop i, BUnit =>
+      if alive i && negb (mem i (halted g))
+      then upd_sig (owe g (exited g) (reported g) (i :: halted g) (add i (fresh g)))
+      else upd_sig g
+  | KSig SCont i, BUnit =>
+      if alive i && mem i (halted g)
+      then upd_sig (owe g (exited g) (reported g) (drop i (halted g)) (add i (fresh g)))
+      else upd_sig g
   | KWait t, BWait r =>
-      let unreported i := mem i (exited g) && negb (mem i (reported g)) in
-      let alive i := (i <? length (born g)) && negb (mem i (exited g)) in
-      let all := seq 0 (length (born g)) in
+      let ok_target j := match t with TPid i => i =? j | TAny => true end in
       match r with
       | WSome j st =>
-          let ok_target := match t with TPid i => i =? j | TAny => true end in
-          if negb ok_target then (Some 1%N, g)                     (* wrong child *)
+          if negb (ok_target j) then (Some 1%N, g)                 (* wrong child *)
           else if negb (unreported j) then (Some 2%N, g)           (* not exited / reported twice *)
           else if negb (option_eqb N.eqb (nth_error (born g) j) (Some st)) then (Some 3%N, g)
-          else upd_sig (mkLedger (born g) (exited g) (j :: reported g) (l_catching g) (l_blocked g)
-                                 (owed_pending g) (owed_caught g))
+          else upd_sig (same (exited g) (j :: reported g) (halted g) (fresh g))
+      | WStop j =>
+          if negb (ok_target j) then (Some 1%N, g)
+          else if negb (mem j (fresh g) && mem j (halted g) && alive j) then (Some 2%N, g)
+          else upd_sig (same (exited g) (reported g) (halted g) (drop j (fresh g)))
+      | WCont j =>
+          if negb (ok_target j) then (Some 1%N, g)
+          else if negb (mem j (fresh g) && negb (mem j (halted g)) && alive j) then (Some 2%N, g)
+          else upd_sig (same (exited g) (reported g) (halted g) (drop j (fresh g)))
       | WNone =>
           let fine := match t with
-                      | TPid i => alive i
-                      | TAny => negb (existsb unreported all) && existsb alive all
+                      | TPid i => alive i && negb (mem i (fresh g))
+                      | TAny => negb (existsb unreported all)
+                                && negb (existsb (fun i => alive i && mem i (fresh g)) all)
+                                && existsb alive all
                       end in
           if fine then upd_sig g else (Some 4%N, g)
       | WEchild =>
@@ -87,20 +113,20 @@ Definition ledger_step (g : ledger) (o : kop) (b : kobs) (pending_seen : bool)
           if fine then upd_sig g else (Some 4%N, g)
       end
   | KBlock, BUnit =>
-      upd_sig (mkLedger (born g) (exited g) (reported g) (l_catching g) true (owed_pending g)
-                        (owed_caught g))
+      upd_sig (mkLedger (born g) (exited g) (reported g) (halted g) (fresh g) (l_catching g) true
+                        (owed_pending g) (owed_caught g))
   | KUnblock, BUnit =>
       (* the pending signal is delivered: to the handler if one is installed *)
-      upd_sig (mkLedger (born g) (exited g) (reported g) (l_catching g) false false
+      upd_sig (mkLedger (born g) (exited g) (reported g) (halted g) (fresh g) (l_catching g) false false
                         (if owed_pending g && l_catching g then S (owed_caught g) else owed_caught g))
   | KCatch c, BUnit =>
-      upd_sig (mkLedger (born g) (exited g) (reported g) c (l_blocked g) (owed_pending g)
-                        (owed_caught g))
+      upd_sig (mkLedger (born g) (exited g) (reported g) (halted g) (fresh g) c (l_blocked g)
+                        (owed_pending g) (owed_caught g))
   | KTake, BTaken n =>
-      (* clause 6: every delivered exit is seen by the handler *)
+      (* clause 6: every delivered change is seen by the handler *)
       if n =? owed_caught g
-      then upd_sig (mkLedger (born g) (exited g) (reported g) (l_catching g) (l_blocked g)
-                             (owed_pending g) 0)
+      then upd_sig (mkLedger (born g) (exited g) (reported g) (halted g) (fresh g) (l_catching g)
+                             (l_blocked g) (owed_pending g) 0)
       else (Some 6%N, g)
   | _, _ => (Some 7%N, g)
   end.
